@@ -4,14 +4,16 @@
 
   The layer mapping enters the lenient detector only through `LayerMap.layerOf` and through the list of layer names.
   `layerOf` is invariant under permutations of the mapping exactly when no identifier is listed under two different
-  layer names (`LayerMap.consistent`); otherwise the LAST listing layer wins and the verdict can change
-  (counterexample in Props/C15.lean).
+  layer names (`LayerMap.consistent`); otherwise the LAST listing layer would win. Since the repair of
+  `LayerRuleMatcher._update_layer_mapping` the matcher raises `LayerMismatch` on an inconsistent mapping (for every
+  definition order, `consistent_perm`), so the verdict class no longer depends on the order of the layers at all.
 -/
 import Bridge.Abs
 import Bridge.OrderDefs
 import PtaProofs.Lemmas.OrderCongr
 import PtaProofs.Lemmas.OrderScan
 import PtaProofs.Lemmas.LayerRuleSim
+import PtaProofs.Lemmas.LayerConsistent
 namespace Pta.OrdL
 open Pta PtaSpec Pta.Ord Pta.OrdS
 
@@ -130,24 +132,6 @@ theorem filterMap_id_rel {β β' : Type} {R : β → β' → Prop} {r : List (Op
     | some y => exact ⟨y, by simp only [List.mem_filterMap, id]; exact ⟨_, ho, rfl⟩, hr⟩
 
 /-! ### `layerOf` under permutations of a consistent mapping -/
-
-def ConsP (m : LayerMap) : Prop := ∀ l1 ∈ m, ∀ l2 ∈ m, ∀ id, id ∈ l1.2 → id ∈ l2.2 → l1.1 = l2.1
-
-theorem consistent_iff (m : LayerMap) : m.consistent = true ↔ ConsP m := by
-  unfold LayerMap.consistent ConsP
-  simp only [List.all_eq_true, Bool.or_eq_true, beq_iff_eq, Bool.not_eq_true', List.any_eq_false,
-    List.contains_iff_mem]
-  constructor
-  · intro h l1 h1 l2 h2 id i1 i2
-    rcases h l1 h1 l2 h2 with e | hn
-    · exact e
-    · exact absurd i2 (hn id i1)
-  · intro h l1 h1 l2 h2
-    by_cases e : l1.1 = l2.1
-    · exact Or.inl e
-    · right
-      intro id i1 i2
-      exact e (h l1 h1 l2 h2 id i1 i2)
 
 theorem layerOfListed_perm {m m' : LayerMap} (hp : m.Perm m') (hc : ConsP m) (id : Str) :
     m.layerOfListed id = m'.layerOfListed id := by
@@ -592,7 +576,9 @@ theorem updateLayerMap_congr (mt : Str → Str → Bool) (mods : List Str) (a : 
 
 theorem matchLayerRule_cls_congr (mt : Str → Str → Bool) (g : PGraph Str) (a a' : LArch) (b : Behavior) (ir : Bool)
     (ss ss' os os' : List Filter) (hs : SM ss ss') (ho : SM os os')
-    (hm : MapRel (updateLayerMap mt g.nodes a (convOf ss os)) (updateLayerMap mt g.nodes a' (convOf ss os))) :
+    (hcc : (updateLayerMap mt g.nodes a (convOf ss os)).consistent = (updateLayerMap mt g.nodes a' (convOf ss os)).consistent)
+    (hm : (updateLayerMap mt g.nodes a (convOf ss os)).consistent = true →
+      MapRel (updateLayerMap mt g.nodes a (convOf ss os)) (updateLayerMap mt g.nodes a' (convOf ss os))) :
     (matchLayerRule mt g a b ir ss os).cls = (matchLayerRule mt g a' b ir ss' os').cls := by
   unfold matchLayerRule
   have c1 := convertFilters_congr mt g.nodes g.nodes ss ss' (SM.refl _) hs
@@ -623,8 +609,14 @@ theorem matchLayerRule_cls_congr (mt : Str → Str → Bool) (g : PGraph Str) (a
         have e1 : List.map (fun x : Filter => x.id) (List.filter (fun x => x.isRegex) (ss ++ os)) = convOf ss os := rfl
         have e2 : List.map (fun x : Filter => x.id) (List.filter (fun x => x.isRegex) (ss' ++ os')) = convOf ss' os' := rfl
         rw [e1, e2, updateLayerMap_congr mt g.nodes a' (fun x => ((convOf_congr hs ho) x).symm)]
-        generalize updateLayerMap mt g.nodes a (convOf ss os) = m at hm ⊢
-        generalize updateLayerMap mt g.nodes a' (convOf ss os) = m' at hm ⊢
+        generalize updateLayerMap mt g.nodes a (convOf ss os) = m at hm hcc ⊢
+        generalize updateLayerMap mt g.nodes a' (convOf ss os) = m' at hm hcc ⊢
+        rw [← hcc]
+        cases hcons : m.consistent with
+        | false => rfl
+        | true =>
+        replace hm := hm hcons
+        simp only [Bool.not_true, Bool.false_eq_true, if_false]
         have hd := detectL_congr hm b ir hr.1 hr.2 (SM.map hOO Filter.toMod)
         cases hv : detectL m b ir expl other (O.map Filter.toMod) with
         | error k =>
@@ -689,17 +681,18 @@ theorem updateLayerMap_perm (mt : Str → Str → Bool) (mods : List Str) {a a' 
   unfold updateLayerMap
   exact h.map _
 
-/-- the order in which the layers were defined does not matter, provided the mapping the rule uses is consistent -/
+/-- the order in which the layers were defined does not matter: an inconsistent mapping is rejected for both orders, and
+    on a consistent mapping the detector sees the same thing -/
 theorem matchLayerRule_perm_layers (mt : Str → Str → Bool) (g : PGraph Str) (a a' : LArch) (b : Behavior) (ir : Bool)
-    (ss os : List Filter) (hp : a.Perm a') (hc : (updateLayerMap mt g.nodes a (convOf ss os)).consistent = true) :
+    (ss os : List Filter) (hp : a.Perm a') :
     (matchLayerRule mt g a b ir ss os).cls = (matchLayerRule mt g a' b ir ss os).cls :=
   matchLayerRule_cls_congr mt g a a' b ir ss ss os os (SM.refl _) (SM.refl _)
-    (MapRel.of_perm (updateLayerMap_perm mt g.nodes hp _) ((consistent_iff _).1 hc))
+    (consistent_perm (updateLayerMap_perm mt g.nodes hp _))
+    (fun hc => MapRel.of_perm (updateLayerMap_perm mt g.nodes hp _) ((consistent_iff _).1 hc))
 
 theorem perm_layers (mt : Str → Str → Bool) (larch larch' : LArch) (rule : Option RuleState) (g : PGraph Str)
-    (hp : larch.Perm larch') (hd : layersDisjoint mt g.nodes larch = true) :
+    (hp : larch.Perm larch') :
     (assertAppliesLayer mt ⟨some larch, rule⟩ g).cls = (assertAppliesLayer mt ⟨some larch', rule⟩ g).cls := by
-  have hfull : ConsP (fullLayerMap mt g.nodes larch) := (consistent_iff _).1 hd
   unfold assertAppliesLayer
   cases rule with
   | none => rfl
@@ -714,8 +707,7 @@ theorem perm_layers (mt : Str → Str → Bool) (larch larch' : LArch) (rule : O
         · generalize convertAliases r.cfg = c
           rcases c with ⟨subjects, objects, _, _, _, _, importDir, _⟩
           cases subjects <;> cases objects <;> cases importDir <;> simp only [LVerdict.cls]
-          exact matchLayerRule_cls_congr mt g larch larch' _ _ _ _ _ _ (SM.refl _) (SM.refl _)
-            (MapRel.of_perm (updateLayerMap_perm mt g.nodes hp _) (consP_update_of_full mt g.nodes larch _ hfull))
+          exact matchLayerRule_perm_layers mt g larch larch' _ _ _ _ hp
 
 theorem assertAppliesLayer_mkRule (mt : Str → Str → Bool) (g : PGraph Str) (a : LArch) (s o n dir exc : Bool)
     (subs objs : List Filter) :
@@ -737,7 +729,8 @@ theorem perm_layer_rule_filters (mt : Str → Str → Bool) (g : PGraph Str) (a 
   · rfl
   · split
     · rfl
-    · exact matchLayerRule_cls_congr mt g a a _ _ _ _ _ _ (SM.of_perm hs) (SM.of_perm ho) (MapRel.refl _)
+    · exact matchLayerRule_cls_congr mt g a a _ _ _ _ _ _ (SM.of_perm hs) (SM.of_perm ho) rfl
+        (fun _ => MapRel.refl _)
 
 /-- `are_named(l₁, l₂, …)`: permuting the named layers permutes the blocks of filters that are appended to the rule -/
 theorem layers_get_perm (a : LArch) {ls ls' : List Str} (h : ls.Perm ls') :
